@@ -61,7 +61,8 @@ CTS = {'html': 'text/html', 'plain': 'text/plain', 'json': 'application/json',
 AE = {'-': None, 'gzip': 'gzip', 'xgzip': 'x-gzip;q=0.5', 'identity': 'identity', 'gzipq0': 'gzip;q=0',
       'other': 'compress', 'idq0': 'identity;q=0'}
 AC = {'-': None, 'utf8': 'utf-8', 'latin1': 'iso-8859-1', 'ascii': 'us-ascii', 'star': '*',
-      'ascii2': 'us-ascii, us-ascii;q=0.5', 'utf16': 'utf-16', 'bogus': 'x-nosuch'}
+      'ascii2': 'us-ascii, us-ascii;q=0.5', 'l1u8': 'iso-8859-1, *;q=0.7, utf-8;q=0.5',
+      'utf16': 'utf-16', 'bogus': 'x-nosuch'}
 
 
 def parse_body(s):
@@ -134,6 +135,16 @@ class _ClosableIter(object):
         raise _Boom('close failed')
 
 
+class _Reader(object):
+    """a readable object without fileno() (serve_fileobj cannot tell its length either)"""
+
+    def __init__(self, data):
+        self._b = io.BytesIO(data)
+
+    def read(self, n=-1):
+        return self._b.read(n)
+
+
 def make_body(kind, chunks):
     if kind == 'K':
         return _ClosableIter(chunks)
@@ -153,8 +164,11 @@ def make_body(kind, chunks):
     if kind == 'F':
         return io.BytesIO(b''.join(v for k, v in chunks))
     if kind == 'Y':
-        return _static.serve_fileobj(io.BytesIO(b''.join(v for k, v in chunks)),
-                                     content_type=CTS[CUR['case'].get('ct', 'html')])
+        fo = CUR['case'].get('ext', {}).get('fo')
+        data = b''.join(v for k, v in chunks)
+        return _static.serve_fileobj(_Reader(data) if fo else io.BytesIO(data),
+                                     content_type=CTS[CUR['case'].get('ct', 'html')],
+                                     disposition='inline' if fo else None)
     if kind == 'J':
         return {'k': [v.decode('latin-1') for k, v in chunks]}
     raise common.HarnessError('bad body kind %r' % kind)
@@ -214,6 +228,10 @@ def _handle():
             resp.headers['Content-Length'] = str(len(data))
         if st[0] == 's':
             resp.status = int(st[1:])
+        if c.get('ext', {}).get('fo'):
+            # the same entity through serve_fileobj on an open file (length from fstat) as an attachment
+            return _static.serve_fileobj(open(path, 'rb'), content_type=ctype, disposition='attachment',
+                                         name='d\xe9p\xf4t.txt')
         return _static.serve_file(path, content_type=ctype)
     if c.get('hcl'):
         resp.headers['Content-Length'] = str(own_length(c, chunks))
@@ -239,6 +257,10 @@ def _handle():
 class Sub(object):
     @cherrypy.expose
     def index(self, **kw):
+        return _handle()
+
+    @cherrypy.expose
+    def leaf(self, **kw):
         return _handle()
 
 
@@ -385,6 +407,7 @@ def make_app(case):
         conf['tools.response_headers.headers'] = hl
     if ext.get('jin'):
         conf['tools.json_in.on'] = True
+    conf['tools.trailing_slash.extra'] = True
     if ext.get('noslash'):
         conf['tools.trailing_slash.on'] = False
     if ext.get('sf'):
@@ -398,6 +421,8 @@ def make_app(case):
         conf['tools.encode.encoding'] = 'utf-8'
     if 'gzip' in tools:
         conf['tools.gzip.on'] = True
+        if ext.get('gzl'):
+            conf['tools.gzip.compress_level'] = int(ext['gzl'])
     if 'etags' in tools:
         conf['tools.etags.on'] = True
         conf['tools.etags.autotags'] = True
@@ -449,7 +474,8 @@ JSON_BAD = b'{"a": [1, 2'
 def environ_for(req, case=None):
     case = case or {}
     kindR = str(case.get('body', '')).startswith('R:')
-    path = '/rpc' if kindR else ('/sub' if req.get('ns') else '/')
+    # ns = 1: an index resource without its slash; ns = 2: a non-index one with a slash too many
+    path = '/rpc' if kindR else {0: '/', 1: '/sub', 2: '/sub/leaf/'}[int(req.get('ns', 0))]
     env = {
         'REQUEST_METHOD': req.get('m', 'GET'), 'SCRIPT_NAME': '', 'PATH_INFO': path,
         'QUERY_STRING': '', 'SERVER_PROTOCOL': 'HTTP/1.0' if str(req.get('proto', '11')) == '10' else 'HTTP/1.1',
